@@ -265,17 +265,23 @@ def case_tree(T, tree):
         T.eq("declare: same dense form", B.to_dense(), expected(T, R), dtype=False)
 
 
-def case_routines(T, which, n, m):
+def case_routines(T, which, n, m, zero_at=None):
     """annotations attached by library routines to their own outputs"""
     from cola.linalg.decompositions.arnoldi import arnoldi
     from cola.linalg.decompositions.lanczos import lanczos
     dt = 'float64'
     if which == "lanczos":
         from .c14 import _setup
-        _, Q, al, be, s, Tm, A, v = _setup(T, n, 0, False, None)
-        Qc, Tc, info = lanczos(cola.SelfAdjoint(ops.Dense(A)), v, max_iters=m, tol=1e-9)
+        # zero_at: the Krylov space is exhausted after zero_at + 1 steps although max_iters >= n (identity basis: exact in floats too)
+        _, Q, al, be, s, Tm, A, v = _setup(T, n, 0 if zero_at is None else -1, False, zero_at)
+        if zero_at is None:
+            Qc, Tc, info = lanczos(cola.SelfAdjoint(ops.Dense(A)), v, max_iters=m, tol=1e-9)
+        else:
+            Qc, Tc, info = cola.linalg.Lanczos(start_vector=v, max_iters=m, tol=1e-9)(cola.SelfAdjoint(ops.Dense(A)))
+            T.check("lanczos: stopped early", Qc.shape[1] == zero_at + 1, f"{Qc.shape}")
         for j in range(n - 1):
-            T.assume(be[j] > 1e-9 * be[0])
+            if j != zero_at:
+                T.assume(be[j] > 1e-9 * be[0])
         Qd = Qc.to_dense()
         check_annotations(T, "lanczos.Q", Qc, Ref(K.raw(T, Qd), dt))
         Td = Tc.to_dense()
@@ -340,6 +346,9 @@ def cases(tier, seed):
              ["gram", "I", "T", ["dense", 2, 3, C16]], ["gram", "T", "T", ["dense", 2, 2, F8]], ["gram", "H", "H", ["dense", 2, 2, C16]], ["gram", "T", "H", ["dense", 2, 2, C16]],
              ["gram", "H", "I", ["sum", ["dense", 2, 2, C16], ["dense", 2, 2, C16]]], ["gram", "H", "I", ["rot", 0]], ["gram", "H", "I", ["stiefel"]],
              ["gram2", ["sum", ["dense", 2, 2, C16], ["dense", 2, 2, C16]]], ["gram2", ["dense", 2, 2, F8]],
+             # lazily transposed complex operands (the transpose of a Sum / Diagonal / Tridiagonal stays a Transpose object)
+             ["gram", "T", "I", ["sum", ["dense", 2, 2, C16], ["dense", 2, 2, C16]]], ["gram", "I", "T", ["sum", ["dense", 2, 2, C16], ["dense", 2, 2, C16]]],
+             ["gram", "T", "I", ["sum", ["dense", 3, 2, C16], ["dense", 3, 2, F8]]], ["gram", "T", "I", ["sum", ["dense", 2, 2, F8], ["dense", 2, 2, F8]]],
              ["product", ["gram", "H", "I", ["sum", ["dense", 2, 2, C16], ["dense", 2, 2, C16]]], ["dense", 2, 2, C16]],
              ["product", ["gram", "T", "I", ["sum", ["dense", 2, 2, F8], ["dense", 2, 2, F8]]], ["dense", 2, 2, F8]],
              ["product", ["gram", "H", "I", ["sum", ["dense", 2, 2, C16], ["dense", 2, 2, C16]]], ["gram", "H", "I", ["sum", ["dense", 2, 2, C16], ["dense", 2, 2, C16]]]],
@@ -348,6 +357,10 @@ def cases(tier, seed):
              ["sliced", ["psd", 3, F8], ["s", 0, 2, None], ["s", 1, 3, None]], ["sliced", ["selfadj", 3, C16], ["s", None, None, 2], ["s", None, None, 2]],
              ["sliced", ["selfadj", 3, C16], ["s", 0, 2, None], ["s", 1, 3, None]], ["sliced", ["psd", 3, F8], ["i", [2, 0]], ["i", [2, 0]]],
              ["sliced", ["psd", 3, F8], ["i", [2, 0]], ["i", [0, 2]]], ["sliced", ["rot", 0], ["s", 0, 1, None], ["s", 0, 1, None]],
+             # index arrays that agree in some positions only / differ in length / are equal up to sign conventions
+             ["sliced", ["psd", 3, F8], ["i", [2, 0]], ["i", [2, 1]]], ["sliced", ["selfadj", 3, C16], ["i", [0, 1]], ["i", [2, 1]]],
+             ["sliced", ["psd", 3, F8], ["i", [0, 1, 2]], ["i", [0, 2, 1]]], ["sliced", ["selfadj", 3, F8], ["i", [1]], ["i", [1, 2]]],
+             ["sliced", ["psd", 3, C16], ["i", [0, 2]], ["i", [0, -1]]], ["sliced", ["psd", 3, F8], ["s", 0, 2, None], ["i", [0, 1]]],
              ["sliced", ["kron", ["rot", 0], ["rot", 0]], ["s", 0, 2, None], ["s", 0, 2, None]],
              ["T", P2c], ["H", P2c], ["T", S2c], ["T", ["psd-generic", 2, C16]], ["H", ["psd-generic", 2, C16]], ["transpose", G], ["adjoint", G],
              ["T", ["stiefel"]], ["H", ["stiefel"]], ["transpose", ["stiefel"]], ["adjoint", ["stiefel"]], ["T", ["rot", 0]], ["transpose", ["kron", ["rot", 0], ["rot", 1]]],
@@ -362,6 +375,8 @@ def cases(tier, seed):
         out.append((f"t:{nm}", case_tree, dict(tree=t)))
     for n, m in ((3, 3), (3, 2), (4, 2), (2, 2)):
         out.append((f"r:lanczos:n{n}m{m}", case_routines, dict(which="lanczos", n=n, m=m), dict(partial_ok=True)))
+    for n, m, z in ((3, 3, 1), (3, 5, 1), (4, 4, 2), (4, 1000, 1)):
+        out.append((f"r:lanczos-exhausted:n{n}m{m}z{z}", case_routines, dict(which="lanczos", n=n, m=m, zero_at=z), dict(partial_ok=True)))
     for n, m in ((3, 2), (3, 3), (2, 1)):
         out.append((f"r:arnoldi:n{n}m{m}", case_routines, dict(which="arnoldi", n=n, m=m), dict(partial_ok=True)))
     out.append(("r:arnoldi-complex:n3m2", case_routines, dict(which="arnoldi-complex", n=3, m=2), dict(partial_ok=True)))
